@@ -90,7 +90,8 @@ def exc_signature(ex):
   while tb is not None:
     fn = tb.tb_frame.f_code.co_filename
     if os.path.abspath(fn).startswith(REPO + os.sep):
-      where = "%s:%s" % (os.path.relpath(fn, REPO), tb.tb_frame.f_code.co_name)
+      # (which function of a recursion runs out of stack first is incidental: name the file only)
+      where = "%s:%s" % (os.path.relpath(fn, REPO), '*' if isinstance(ex, RecursionError) else tb.tb_frame.f_code.co_name)
     tb = tb.tb_next
   return "exc:%s@%s" % (type(ex).__name__, where or 'harness')
 
@@ -279,7 +280,10 @@ def run_property(prop, tier, seed=0, budget_s=None, jobs=None, only=None, slice_
     pending = set()
     for oi, o in enumerate(obls):
       for ci in range(len(o.cases)):
+        flt = os.environ.get('VERIF_CASE_FILTER')       # development aid: only cases whose repr contains the text (the run is then marked inconclusive)
+        if flt and flt not in repr(o.cases[ci]): continue
         pending.add(ex.submit(run_task, prop, oi, ci, None, deadline, slice_s))
+    if os.environ.get('VERIF_CASE_FILTER'): inconclusive.append('case filter active: not a full run')
     while pending:
       done, pending = cf.wait(pending, return_when=cf.FIRST_COMPLETED)
       for fut in done:
